@@ -452,6 +452,24 @@ func (n *nodeDevice) split(requestsPerInstance corev1.ResourceList, deviceType s
 	return r
 }
 
+// keepAllocationsOfMissingNode reports whether pods still hold allocations on the node; if so it empties the
+// totals (as invalidateNodeDevice does) so that nothing can be allocated until the Device object is seen again.
+func (n *nodeDevice) keepAllocationsOfMissingNode() bool {
+	n.lock.Lock()
+	defer n.lock.Unlock()
+	held := false
+	for _, pods := range n.allocateSet {
+		if len(pods) > 0 {
+			held = true
+			break
+		}
+	}
+	if held {
+		n.resetDeviceTotal(map[schedulingv1alpha1.DeviceType]deviceResources{})
+	}
+	return held
+}
+
 type nodeDeviceCache struct {
 	lock sync.RWMutex
 	// nodeDeviceInfos stores nodeDevice for each node.
@@ -621,9 +639,16 @@ func (n *nodeDeviceCache) gcNodeDevice(ctx context.Context, informerFactory info
 
 		n.lock.Lock()
 		defer n.lock.Unlock()
-		for name := range n.nodeDeviceInfos {
+		for name, info := range n.nodeDeviceInfos {
 			if !nodeNames.Has(name) {
 				metrics.RecordSecondaryDeviceNotWellPlanned(name, false)
+				if info.keepAllocationsOfMissingNode() {
+					// Pods of the node are still known to hold devices (their delete events release them). Dropping
+					// the entry would forget them: if the Node and its Device object come back (node re-registered)
+					// the devices they hold would be offered again. Keep what they hold, offer nothing meanwhile.
+					klog.InfoS("nodeDevice is kept without devices since pods still hold allocations but the Node object is missing", "node", name)
+					continue
+				}
 				delete(n.nodeDeviceInfos, name)
 				klog.InfoS("nodeDevice has been removed since missing Node object", "node", name)
 			}
